@@ -3,6 +3,7 @@ import Driver.Breaker
 import Driver.Sf
 import Driver.Sfwrap
 import Driver.Caches
+import Driver.Validators
 open Lean Sso.Drv
 
 /-! `ssoverif <trace.jsonl>`: one verdict line per case, then a summary line. -/
@@ -13,6 +14,7 @@ def dispatch (e : String) (j : Json) : Except String Verdict :=
   | "sf" => Sso.Drv.Sf.checkCase j
   | "sfwrap" => Sso.Drv.Sfwrap.checkCase j
   | "caches" => Sso.Drv.Caches.checkCase j
+  | "validators" => Sso.Drv.Validators.checkCase j
   | _ => throw s!"unknown engine {e}"
 
 partial def loop (h : IO.FS.Stream) (out : IO.FS.Stream) (n bad : Nat) : IO (Nat × Nat) := do
